@@ -247,13 +247,22 @@ class EventDispatcher(metaclass=abc.ABCMeta):
             if not self.stopped:
                 raise
         finally:
-            # Cancel any pending task in the event pool.
-            self._handlers_task_pool.cancel()
-            await self._handlers_task_pool.wait()
-            # No more cancelation at this point.
-            self._active_tasks = None
-            # Finalize producers.
-            await gather_no_raise(*[producer.finalize() for producer in self._producers])
+            # Cleanup should run to completion even if we get canceled while it is in progress.
+            cleanup = asyncio.ensure_future(self._cleanup())
+            try:
+                await asyncio.shield(cleanup)
+            except asyncio.CancelledError:
+                await cleanup
+                raise
+
+    async def _cleanup(self):
+        # Cancel any pending task in the event pool.
+        self._handlers_task_pool.cancel()
+        await self._handlers_task_pool.wait()
+        # No more cancelation at this point.
+        self._active_tasks = None
+        # Finalize producers.
+        await gather_no_raise(*[producer.finalize() for producer in self._producers])
 
     def on_error(self, error: Any):
         logger.error(error)
